@@ -107,9 +107,10 @@ static int32_t traverse_schema_recursive(
         return element_idx + 1;
     }
 
-    /* Group node - recursively process children */
+    /* Group node - recursively process children. num_children comes from the
+     * file: stop when the element list is exhausted. */
     int32_t next_idx = element_idx + 1;
-    for (int32_t child = 0; child < elem->num_children; child++) {
+    for (int32_t child = 0; child < elem->num_children && next_idx < ctx->num_elements; child++) {
         next_idx = traverse_schema_recursive(ctx, next_idx, this_def, this_rep);
     }
 
@@ -161,7 +162,7 @@ static void compute_levels(
      * We process its children starting at index 1. */
     const parquet_schema_element_t* root = &elements[0];
     int32_t next_idx = 1;
-    for (int32_t child = 0; child < root->num_children; child++) {
+    for (int32_t child = 0; child < root->num_children && next_idx < num_elements; child++) {
         next_idx = traverse_schema_recursive(&ctx, next_idx, 0, 0);
     }
 }
